@@ -104,3 +104,84 @@ package lpm
 //@   ensures @iteration-writes-only-its-own-stack onlyFresh()
 //@   loop 1 invariant @own-stack arr(stack) == stackArray || fresh(stack) || cap(stack) == 0
 //@   loop 1 invariant @frame onlyFresh()
+
+// ---------------------------------------------------------------------------
+// Thin public layer of Trie and Txn (C13, C04, C01): lookups go to the receiver's own root
+// with the caller's key; the read-only forms of Prefix/LowerBound work on a throw-away
+// transaction over the trie's root; All starts at the root; a transaction's Prefix and
+// LowerBound freeze the trie (id bump) before any node can escape.
+//@ func lpmLookup
+//@   trusted
+//@   pure
+//@ func lpmLookupExact
+//@   trusted
+//@   pure
+//@ func New
+//@   property C13 C04
+//@   ensures @empty result.root == nil && result.size == 0
+//@ func (*Trie).Len
+//@   property C13 C04
+//@   pure
+//@   flag nosafety
+//@   ensures result == l.size
+//@ func (*Txn).Len
+//@   property C13 C04
+//@   pure
+//@   flag nosafety
+//@   ensures result == txn.size
+//@ func (*Trie).Lookup
+//@   property C13 C04
+//@   flag nosafety
+//@   atcall lpmLookup@1 requires @own-root-callers-key $0 == l.root && $1 == key
+//@   mustcall lpmLookup@1 when @always true
+//@ func (*Trie).LookupExact
+//@   property C13 C04
+//@   flag nosafety
+//@   atcall lpmLookupExact@1 requires @own-root-callers-key $0 == l.root && $1 == key
+//@   mustcall lpmLookupExact@1 when @always true
+//@ func (*Txn).Lookup
+//@   property C13 C04
+//@   flag nosafety
+//@   atcall lpmLookup@1 requires @own-root-callers-key $0 == txn.root && $1 == key
+//@   mustcall lpmLookup@1 when @always true
+//@ func (*Txn).LookupExact
+//@   property C13 C04
+//@   flag nosafety
+//@   atcall lpmLookupExact@1 requires @own-root-callers-key $0 == txn.root && $1 == key
+//@   mustcall lpmLookupExact@1 when @always true
+//@ func (*Trie).All
+//@   property C13 C04 C01
+//@   flag nosafety
+//@   ensures @starts-at-the-root (l.root == nil ==> result == nil) && (l.root != nil ==> result != nil && fresh(result) && result.start == l.root && len(result.stack) == 0)
+//@ func (*Trie).Prefix
+//@   property C13 C04 C01
+//@   flag nosafety
+//@   atcall (*Txn).Prefix@1 requires @throw-away-transaction-over-the-tries-root fresh($0) && $0.root == l.root && $1 == key
+//@   mustcall (*Txn).Prefix@1 when @always true
+//@ func (*Trie).LowerBound
+//@   property C13 C04 C01
+//@   flag nosafety
+//@   atcall (*Txn).LowerBound@1 requires @throw-away-transaction-over-the-tries-root fresh($0) && $0.root == l.root && $1 == key
+//@   mustcall (*Txn).LowerBound@1 when @always true
+//@ func (*Txn).Clear
+//@   property C13 C04 C01
+//@   flag nosafety
+//@   ensures @forgets-the-trie txn.root == nil && txn.size == 0 && txn.txnID == 0
+//@ func (*Txn).Prefix
+//@   property C13 C04 C01
+//@   flag nosafety
+//@   maypanic
+//@   flag assumepre=well-formed-LPM-keys-and-trie
+//@   requires txn != nil
+//@   ensures @bump-before-escape old(txn.root) != nil ==> txn.txnID == old(txn.txnID) + 1
+//@   ensures @empty-trie-yields-nothing old(txn.root) == nil ==> result == nil
+//@   ensures @trie-untouched txn.root == old(txn.root) && txn.size == old(txn.size)
+//@ func (*Txn).LowerBound
+//@   property C13 C04 C01
+//@   flag nosafety
+//@   maypanic
+//@   flag assumepre=well-formed-LPM-keys-and-trie
+//@   requires txn != nil
+//@   ensures @bump-before-escape old(txn.root) != nil ==> txn.txnID == old(txn.txnID) + 1
+//@   ensures @empty-trie-yields-nothing old(txn.root) == nil ==> result == nil
+//@   ensures @trie-untouched txn.root == old(txn.root) && txn.size == old(txn.size)
